@@ -237,13 +237,36 @@ def gen_pyval(rng):
     return ["str", gen_str_form(rng)]
 
 
+_RE_INT = re.compile(r"[+-]?[0-9]+\Z")
+_RE_DECIMAL = re.compile(r"[+-]?(?:[0-9]+(?:\.[0-9]*)?|\.[0-9]+)\Z")
+
+
+def xsd_valid(d, l):
+    """statistic only (the judgement is made by spec_ok in Coq)"""
+    if d in INT_TYPES:
+        if not _RE_INT.match(l):
+            return False
+        lo, hi = {"long": (-2 ** 63, 2 ** 63 - 1), "unsignedLong": (0, 2 ** 64 - 1)}.get(d, BOUNDS[d])
+        v = int(l)
+        return (lo is None or lo <= v) and (hi is None or v <= hi)
+    if d == "decimal":
+        return bool(_RE_DECIMAL.match(l))
+    if d == "boolean":
+        return l in ("true", "false", "1", "0")
+    if d == "normalizedString":
+        return not re.search(r"[\t\n\r]", l)
+    if d == "token":
+        return not re.search(r"[\t\n\r]|^ | $|  ", l)
+    return True
+
+
 class C09(Suite):
     name = "literal"
     imports = "From RV Require Import Literal.Model."
     case_ty = "case"
     obs_ty = "obs"
     kf = "kf"
-    kf_ids = {1: "F14c", 2: "F14d", 3: "F14b", 4: "F14", 5: "F14e", 6: "F14f", 7: "F14g"}
+    kf_ids = {3: "F14b", 6: "F14f", 7: "F14g"}
     corr = ("Literal.__new__/normalize/eq/__eq__, _castLexicalToPython, _castPythonToLiteral, _well_formed_*, "
             "_parseBoolean, _normalise_XSD_STRING, _strip_and_collapse_whitespace")
     quick_n = 1600
@@ -346,6 +369,8 @@ class C09(Suite):
             f["ill_" + str(o["x"]["ill"])] = 1
             if o["x"]["lex"] != c["l"]:
                 f["lex_rewritten"] = 1
+            if o["x"]["ill"] is False and not xsd_valid(c["d"], c["l"]):
+                f["invalid_form_not_flagged_" + c["d"]] = 1
         if c["k"] == "eq":
             f["eq_" + o["eq"]] = 1
             f["same_" + str(o["same"])] = 1
@@ -379,8 +404,8 @@ class C09(Suite):
 #   law 1: python value -> literal: documented datatype, lexical form in the lexical space, denotes the value, reads back
 #   law 2: valid lexical form: not flagged, oracle value; the stored (normalised) form is valid and denotes the same value
 #   law 3: normalize() preserves the value and is idempotent; re-reading the stored form gives the same form
-#   law 4: form outside the lexical space is flagged ill-typed
-# flags: 1, 2, 4, 8 for a failed law 1..4; 16 = the harness' own oracle could not judge (counts as failure)
+#   law 0: form outside the lexical space - nothing demanded, only counted (accepted without the ill-typed flag or not)
+# flags: 1, 2, 4 for a failed law 1..3; 16 = the harness' own oracle could not judge (counts as failure)
 
 _DEC = r"(?:[0-9]+(?:\.[0-9]*)?|\.[0-9]+)"
 RE_DOUBLE = re.compile(rf"^(?:[+-]?{_DEC}(?:[eE][+-]?[0-9]+)?|[+-]?INF|NaN)\Z")
@@ -661,20 +686,12 @@ def region_of(c):
     """finding region, decided on the input alone (never on what rdflib answered)"""
     law, d = c["law"], c.get("d")
     if law == 1:
-        if c["py"][0] == "float" and c["py"][1] in ("inf", "-inf", "nan"):
-            return 1
-        if c["py"][0] == "bytes":
-            return 3
-        return 0
+        return 3 if c["py"][0] == "bytes" else 0
     l = c["l"]
     o = oracle(d, l)
-    if law == 3 and d in ("hexBinary", "base64Binary") and o is not None and l != "":
-        return 2
     if law == 3 and o is not None and d == "duration" and o[1] < 0 and int(abs(Fraction(o[2])) * 10 ** 6) != 0:
         return 7
     if law == 2 and o is not None:
-        if d in ("double", "float") and (o[1] == "nan" or o[1].endswith("inf")):
-            return 6  # the normalised form is python's inf / nan
         if d in ("dateTime", "time", "date"):
             # python's datetime cannot hold these values: hour 24, years outside 1..9999, more than 6 fraction digits,
             # a date with a time zone
@@ -699,13 +716,6 @@ def region_of(c):
                 return 4
             if d == "yearMonthDuration" and o[1] == 0:
                 return 4
-    if law == 4 and o is None:
-        if d in ("double", "float"):
-            try:
-                float(l)
-                return 5
-            except ValueError:
-                return 0
     return 0
 
 
@@ -762,9 +772,7 @@ class C09Conf(Suite):
             if valid:
                 law = rng.choice([2, 2, 3])
             else:
-                law = 4
-                if d not in ("double", "float"):
-                    law = 0  # over-acceptance of the date/time/binary parsers is recorded as a statistic only
+                law = 0  # a form outside the lexical space: nothing is demanded; acceptance is counted in the evidence
             c = {"law": law, "d": d, "l": l}
         c["region"] = region_of(c)
         return c
@@ -827,8 +835,6 @@ class C09Conf(Suite):
             info = {"lex": str.__str__(x), "ill": x.ill_typed, "val": repr(x.value)[:60]}
             if law == 0:
                 return {"flags": 0, "info": info, "overaccepted": x.ill_typed is False}
-            if law == 4:
-                return {"flags": 0 if x.ill_typed is True else 8, "info": info}
             if law == 2:
                 ok = x.ill_typed is False and canon_any(d, x.value) == o and oracle(d, str.__str__(x)) == o
                 return {"flags": 0 if ok else 2, "info": info}
@@ -843,7 +849,7 @@ class C09Conf(Suite):
                 return {"flags": 0 if ok else 4, "info": info}
         except Exception as e:  # noqa: BLE001
             # an exception out of Literal()/normalize()/eq is a failure of the law under test
-            return {"flags": {1: 1, 2: 2, 3: 4, 4: 8}.get(law, 16),
+            return {"flags": {0: 0, 1: 1, 2: 2, 3: 4}.get(law, 16),
                     "info": {"raised": f"{type(e).__name__}: {e}"[:200], **info}}
         return {"flags": 16, "info": info}
 
@@ -871,7 +877,7 @@ class C09Conf(Suite):
                 c2 = dict(c, l=s[:i] + s[i + 1:])
                 # keep the law meaningful for the shrunk form
                 valid = oracle(c2["d"], c2["l"]) is not None
-                if (c["law"] in (2, 3)) == valid:
+                if c["law"] in (2, 3) and valid:
                     c2["region"] = region_of(c2)
                     yield c2
 
